@@ -27,6 +27,15 @@ echo "== demo with patch" | tee -a "$log"
 ( bash SEEDED/run_demo.sh ) >> "$log" 2>&1; patched_rc=$?
 echo "demo with patch: rc=$patched_rc" | tee -a "$log"
 git checkout -q -- . ; git clean -qfd -e SEEDED -e target 2>/dev/null
+if [ "${SEEDED_CONFIRM_ONLY:-0}" = 1 ]; then
+	# confirmation only (used while a background run is reading /repo): keep the files, run the check later with tools_seeded_check.sh
+	cp "$wt/SEEDED/patch.diff" "$out/patch.diff"
+	mkdir -p "$out/demo"
+	( cd "$wt/SEEDED" && for f in *; do case "$f" in patch.diff|target|build.log|PROMPT.txt) ;; *) cp -r "$f" "$out/demo/" ;; esac; done )
+	echo "{\"clean_rc\": $clean_rc, \"patched_rc\": $patched_rc, \"tests_passed_with_patch\": ${passed:-0}, \"tests_failed_with_patch\": \"$failed_names\", \"check\": \"$prop\", \"check_rc\": -1}" > "$out/confirm.json"
+	cat "$out/confirm.json"
+	exit 0
+fi
 echo "== our check against the change" | tee -a "$log"
 cd /repo && git apply "$wt/SEEDED/patch.diff" || { echo "patch does not apply to /repo" | tee -a "$log"; exit 2; }
 rm -rf /verif/.evidence.keep; cp -r /verif/evidence /verif/.evidence.keep
@@ -37,6 +46,6 @@ echo "check $prop quick (scale $scale): rc=$check_rc" | tee -a "$log"
 grep -E "^violation:|^detail:|^VIOLATION|harness error" "$out/check_output.txt" | cut -c1-600 | tee -a "$log"
 cp "$wt/SEEDED/patch.diff" "$out/patch.diff"
 mkdir -p "$out/demo"
-( cd "$wt/SEEDED" && for f in *; do case "$f" in patch.diff|target|build.log) ;; *) cp -r "$f" "$out/demo/" ;; esac; done )
+( cd "$wt/SEEDED" && for f in *; do case "$f" in patch.diff|target|build.log|PROMPT.txt) ;; *) cp -r "$f" "$out/demo/" ;; esac; done )
 echo "{\"clean_rc\": $clean_rc, \"patched_rc\": $patched_rc, \"tests_passed_with_patch\": ${passed:-0}, \"tests_failed_with_patch\": \"$failed_names\", \"check\": \"$prop\", \"check_rc\": $check_rc}" > "$out/confirm.json"
 cat "$out/confirm.json"
